@@ -36,8 +36,12 @@ Each function mirrors the Rust code named next to it (all paths relative to /rep
                         (response/generic.rs: status 500, body = `e.ser()`), `Http::run_client` (lib.rs: status
                         `400..=599` ⇒ `Err(E::de(body))`), and the loop-back transport of the harness (lookup by
                         `Encoding::METHOD`, otherwise a 400 plain-text answer).
-* `rechunk`, `textStreamItems` — `Request<Bytes>::try_into_stream` (request/generic.rs: `ready_chunks(16)` over the
-                        body bytes) and the per-chunk `String::from_utf8` of `FromReq<StreamingText>` (codec/stream.rs).
+* `rechunk`, `textStep`, `textDecodeItems` — `Request<Bytes>::try_into_stream` (request/generic.rs: `ready_chunks(16)`
+                        over the body bytes) and `decode_text_chunks` of codec/stream.rs (`FromReq`/`FromRes` of
+                        `StreamingText`): an incomplete UTF-8 tail is carried over to the next chunk.
+* `inputEncodingsOld`, `textStreamItemsOld` — the code before the repairs `fix: PatchUrl and PutUrl read their
+                        arguments from the request body` (F-C13-1) and `fix: StreamingText completes a character
+                        split across transport chunks` (F-C13-2); kept for the regression witnesses.
 
 Codecs are abstract (`Codec α`): the pipeline theorems assume only `dec (enc a) = ok a`.
 -/
@@ -419,6 +423,17 @@ def inputEncodings : List InEnc := [
   ⟨"GetUrl", .get, .get, .query, .query, argsKind⟩,
   ⟨"PostUrl", .post, .post, .bodyText, .bodyText, argsKind⟩,
   ⟨"DeleteUrl", .delete, .delete, .query, .query, argsKind⟩,
+  ⟨"PatchUrl", .patch, .patch, .bodyText, .bodyText, argsKind⟩,
+  ⟨"PutUrl", .put, .put, .bodyText, .bodyText, argsKind⟩,
+  ⟨"Post", .post, .post, .bodyBytes, .bodyBytes, deserializationKind⟩,
+  ⟨"Patch", .patch, .patch, .bodyBytes, .bodyBytes, deserializationKind⟩,
+  ⟨"Put", .put, .put, .bodyBytes, .bodyBytes, deserializationKind⟩ ]
+
+/-- the table before the repair of F-C13-1: `FromReq<PatchUrl>` / `FromReq<PutUrl>` read `req.as_query()` -/
+def inputEncodingsOld : List InEnc := [
+  ⟨"GetUrl", .get, .get, .query, .query, argsKind⟩,
+  ⟨"PostUrl", .post, .post, .bodyText, .bodyText, argsKind⟩,
+  ⟨"DeleteUrl", .delete, .delete, .query, .query, argsKind⟩,
   ⟨"PatchUrl", .patch, .patch, .bodyText, .query, argsKind⟩,
   ⟨"PutUrl", .put, .put, .bodyText, .query, argsKind⟩,
   ⟨"Post", .post, .post, .bodyBytes, .bodyBytes, deserializationKind⟩,
@@ -549,14 +564,37 @@ def rechunkGo (n : Nat) : Nat → Bytes → Bytes → List Bytes
 
 def rechunk (n : Nat) (body : Bytes) : List Bytes := rechunkGo n n [] body
 
-/-- items of the `TextStream` the server function receives: one `String::from_utf8` per transport chunk -/
-def textStreamItems (chunks : List Bytes) : List (Except SErr Bytes) :=
+/-- one chunk through `decode_text_chunks`: the item emitted (if any) and the bytes kept for the next chunk -/
+def textStep (pending chunk : Bytes) : Option (Except SErr Bytes) × Bytes :=
+  let buf := pending ++ chunk
+  match utf8ErrGo 0 0 buf with
+  | none => (some (.ok buf), [])
+  | some (i, none) => (if i = 0 then none else some (.ok (buf.take i)), buf.drop i)
+  | some (i, some n) => (some (.error (fromSfe deserializationKind (utf8ErrMsg (i, some n)))), [])
+
+/-- `decode_text_chunks`: the items of the `TextStream` handed to the server function (or to the caller) -/
+def textDecodeGo : Bytes → List Bytes → List (Except SErr Bytes)
+  | pending, [] =>
+    if pending.isEmpty then []
+    else match utf8ErrGo 0 0 pending with
+      | none => [.ok pending]
+      | some e => [.error (fromSfe deserializationKind (utf8ErrMsg e))]
+  | pending, c :: cs =>
+    match textStep pending c with
+    | (some it, p') => it :: textDecodeGo p' cs
+    | (none, p') => textDecodeGo p' cs
+
+def textDecodeItems (chunks : List Bytes) : List (Except SErr Bytes) := textDecodeGo [] chunks
+
+/-- before the repair of F-C13-2: one `String::from_utf8` per transport chunk -/
+def textStreamItemsOld (chunks : List Bytes) : List (Except SErr Bytes) :=
   chunks.map fun c =>
     match utf8ErrGo 0 0 c with
     | none => .ok c
     | some e => .error (fromSfe deserializationKind (utf8ErrMsg e))
 
-/-- does some scalar of a well-formed text straddle a boundary of the 16-byte re-chunking? -/
+/-- does some scalar of a well-formed text straddle a boundary of the 16-byte re-chunking?
+(the input class of F-C13-2) -/
 def splitsScalar (body : Bytes) : Bool :=
   (rechunk 16 body).any fun c => (utf8ErrGo 0 0 c).isSome
 
